@@ -1,1 +1,11 @@
-//! verif hook (child module): see /verif/hooks/verif.rs
+//! verif hook (child module of `merge_bounded`)
+use super::*;
+
+impl<S> MergeBounded<S> {
+    pub fn verif_from_parts(streams: FuturesUnorderedBounded<S>) -> Self {
+        Self { streams }
+    }
+    pub fn verif_inner(&mut self) -> &mut FuturesUnorderedBounded<S> {
+        &mut self.streams
+    }
+}
